@@ -71,6 +71,7 @@ func newDriver(tier string) *driver {
 	// Ethereum transactions leave the same account record
 	d.mustDeliver(d.cosmosTx(banktypes.NewMsgSend(w.Addrs[d.O], w.Addrs[d.W], sdk.NewCoins(sdk.NewInt64Coin(world.Denom, 1)))))
 	d.mustDeliver(d.cosmosTx(stakingtypes.NewMsgDelegate(w.Addrs[d.O], w.ValAddr[0], sdk.NewCoin(world.Denom, e17(10)))))
+	d.mustDeliver(d.cosmosTx(stakingtypes.NewMsgDelegate(w.Addrs[d.O], w.ValAddr[1], sdk.NewCoin(world.Denom, e17(3)))))
 	d.mustDeliver(d.cosmosTxAs(d.Op, banktypes.NewMsgSend(w.Addrs[d.Op], w.Addrs[d.W], sdk.NewCoins(sdk.NewInt64Coin(world.Denom, 1)))))
 	// a coin-origin token pair so that the bank precompile has something to report
 	if _, err := w.App.Erc20Keeper.RegisterCoin(w.Ctx(), banktypes.Metadata{
@@ -136,6 +137,28 @@ func (d *driver) baseOps(w *world.World, depth int, path []string) []engine.Op {
 		mk("setWithdraw(W)", distrtypes.NewMsgSetWithdrawAddress(O, w.Addrs[d.W])),
 		{Name: "nextblock", Apply: func(w *world.World, p []string, res *engine.Result) string {
 			w.VirtualNextBlock(6*time.Second, nil, nil)
+			return "ok"
+		}},
+		// V2 is jailed and leaves the bonded set at the block boundary: the owner's delegation to it keeps
+		// its pending rewards, its stake is with an unbonding validator
+		{Name: "jail(V2)+block", Apply: func(w *world.World, p []string, res *engine.Result) string {
+			v, ok := w.App.StakingKeeper.GetValidator(w.Ctx(), v2)
+			if !ok || v.IsJailed() {
+				return "skip"
+			}
+			w.App.StakingKeeper.Jail(w.Ctx(), w.ValCons[1])
+			w.VirtualNextBlock(6*time.Second, nil, nil)
+			return "ok"
+		}},
+		// a block passes and V1 is slashed 10% for an infraction in the previous block: unbonding entries
+		// created there lose part of their balance (initial balance unchanged)
+		{Name: "block+slash(V1,10%)", Apply: func(w *world.World, p []string, res *engine.Result) string {
+			w.VirtualNextBlock(6*time.Second, nil, nil)
+			v, ok := w.App.StakingKeeper.GetValidator(w.Ctx(), v1)
+			if !ok {
+				return "skip"
+			}
+			w.App.StakingKeeper.Slash(w.Ctx(), w.ValCons[0], w.Header.Height-1, v.ConsensusPower(sdk.DefaultPowerReduction), sdk.NewDecWithPrec(1, 1))
 			return "ok"
 		}},
 	}
@@ -744,7 +767,7 @@ func Run(tier string) int {
 	res.Sample(map[string]any{"base_state": []string{"undelegate(V1,2e17)", "nextblock"}, "call": "staking.cancelUnbonding(V1,mid,h-1)"})
 	return engine.Finish(res, engine.Meta{
 		Property: Prop, Tier: tier, Level: "model_checking", Start: start,
-		Rule:   "base states: all sequences <= depth of {delegate V2, undelegate V1, redelegate V1>V2, set withdraw address, block boundary} with digest dedup; in each, every staking / distribution / ICS-20 tx method (incl. createValidator and withdrawValidatorCommission by a validator operator) x argument grid as fork differential (eth tx to the precompile vs Cosmos tx with the native message, both through DeliverTx) with a diff of ALL persistent stores, plus query methods vs module state and the native querier (validators: 4 statuses x 4 page requests; redelegations: 4 filters); non-trivial = differential in which both sides succeeded",
+		Rule:   "base states: all sequences <= depth of {delegate V2, undelegate V1, redelegate V1>V2, set withdraw address, block boundary, V2 jailed and out of the bonded set, V1 slashed for the previous block} with digest dedup; in each, every staking / distribution / ICS-20 tx method (incl. createValidator and withdrawValidatorCommission by a validator operator) x argument grid as fork differential (eth tx to the precompile vs Cosmos tx with the native message, both through DeliverTx) with a diff of ALL persistent stores, plus query methods vs module state and the native querier (validators: 4 statuses x 4 page requests; redelegations: 4 filters); non-trivial = differential in which both sides succeeded",
 		Bounds: map[string]any{"base_depth": bounds(tier)},
 		Assumptions: []string{
 			"gas price 0 so that fees do not enter the comparison ('balances apart from gas')",
